@@ -30,3 +30,5 @@ def run(ctx):
     ctx.run("C16.GENEXIT", "R-ORDER", par.c16_genexit)
     ctx.run("C01.EACH-ONCE", "R-FLOW/R-ORDER", par.c01_each_once)
     ctx.run("C01.BATCHSIZE", "R-ARITH", par.c01_batchsize)
+    ctx.run("C09.PER-CALL-INPUTS", "R-RESET", par.c09_per_call_inputs)
+    ctx.run("C04.FLAGS", "R-ORDER", par.c04_flags)
